@@ -336,6 +336,16 @@ func (br *xmpReader) readTagValue() (buf []byte, err error) {
 				}
 				break
 			}
+			if i == len(buf) && len(buf) >= s {
+				// the whole window is white space: drop it, whatever its length
+				// the padding is not part of the value
+				if _, err = br.Discard(i); err != nil {
+					err = errors.Wrap(err, "Tag Value (discard)")
+					return nil, err
+				}
+				i = 0
+				continue
+			}
 			j = i
 		}
 		// Search buffer.
